@@ -2,7 +2,8 @@
 (* Trace validation for C12: one log line per argument vector, recorded from the real CommandLineArguments (getters)
    and the real CommandLineTestRunner on a probe registry.  The meaning of the vector is computed here by Meaning();
    for documented vectors every observation is bound (configuration, output kind, package, separate-process use,
-   how often each probe test ran); for every vector the safety clause is checked: a rejected vector prints usage or
+   how often each probe test ran - the probe registry is whatever the `probe' line in force says: the 10-test registry, the
+   word registry, a seeded random one); for every vector the safety clause is checked: a rejected vector prints usage or
    help and runs nothing. *)
 EXTENDS CmdLine, Json, IOUtils
 VARIABLES l, probe, obs
@@ -30,7 +31,7 @@ RunOK(c, e, p) ==
     /\ e.lvl2 /\ e.printed = "none"
     /\ e.outkind = OutKind(c) /\ (c.out = "junit" => e.outpkg = c.pkg)
     /\ Len(e.ran) = Len(p)
-    /\ (SelectionSpecified(c) => \A k \in 1..Len(p) : e.ran[k] = Runs(p[k], c))
+    /\ \A k \in 1..Len(p) : SelectionKnown(p[k], c) => e.ran[k] = Runs(p[k], c)
     /\ e.seps = (IF c.sep THEN SumSeq(e.ran) ELSE 0)
 Silent(e) == \A k \in 1..Len(e.ran) : e.ran[k] = 0
 \* what the statement requires of every vector
